@@ -481,9 +481,10 @@ impl Lowerer {
         // create instance columns from table columns
         let table = self.table_buffer.iter().find(|t| t.id == tid).unwrap();
 
+        // one instance column per declared column, duplicates included: the instance is
+        // matched with the table's closing Select by position (redirect_mappings below)
         let columns = (table.relation.columns.iter())
             .cloned()
-            .unique()
             .map(|col| (col, self.cid.gen()))
             .collect_vec();
 
